@@ -793,13 +793,34 @@ func (x *exec) checkIsolatedStops(r *sup.CaseResult, ck *checker, all bool) {
 			continue
 		default:
 		}
+		atRest := func() bool { // nobody inside the library is doing anything: only parked goroutines
+			for _, g := range dumpAll() {
+				if hasFrame(g, "github.com/goatcms/goatcore/") && !parked(g) {
+					return false
+				}
+			}
+			return true
+		}
+		parentDone := x.nodes[ns.P].sc.IsDone()
 		if watchers == 0 {
 			r.Violate("isolated-not-stopped", fmt.Sprintf("scope %d has an isolated context whose parent context ended, but its Done() is still open and no watcher goroutine is left that could close it", n),
+				map[string]any{"plan": x.plan.String(), "log": renderLog(ck.es, 120)})
+		} else if parentDone && atRest() && func() bool { time.Sleep(300 * time.Millisecond); return atRest() }() && !isDoneCh(ch) {
+			r.Violate("isolated-not-stopped", fmt.Sprintf("scope %d has an isolated context; the context of its parent scope %d is done, every goroutine inside the library is parked (two dumps), and its Done() is still open: the watcher goroutines that are left wait for something else than the parent's end", n, ns.P),
 				map[string]any{"plan": x.plan.String(), "log": renderLog(ck.es, 120)})
 		} else if r.Inconclusive == "" {
 			r.Inconclusive = fmt.Sprintf("Done() of isolated scope %d not closed within the watchdog (%d watcher goroutines alive)", n, watchers)
 		}
 		return
+	}
+}
+
+func isDoneCh(ch <-chan struct{}) bool {
+	select {
+	case <-ch:
+		return true
+	default:
+		return false
 	}
 }
 
